@@ -2620,4 +2620,83 @@ def comp_fwd_array(prop, tier, comp, work):
     return out
 
 
-RULES = {"R-FWD.array": comp_fwd_array, "R-FWD.functional": comp_fwd_functional, "R-UFUNC": comp_ufunc, "R-KSIB": comp_ksib, "R-SIMD": comp_simd, "R-CONSTBRANCH": comp_constbranch, "R-TRAITPROV": comp_traitprov, "R-MAYBE-DIV": comp_maybe_div, "R-OWN": comp_own, "R-EVAL": comp_eval, "R-EQSHAPE": comp_eqshape, "R-PAIR": comp_pair, "R-FOLD": comp_fold, "R-MEMCOPY": comp_memcopy, "R-AXISNORM": comp_axisnorm, "R-AXISNORM.simd": comp_axisnorm_simd, "R-UFWD.reduce": comp_ufwd_reduce, "R-PARAMUSE": comp_paramuse, "R-GETFN": comp_getfn, "R-MAYBE.broadcast": comp_maybe_bcast, "R-SIMDSIB": comp_simdsib, "R-EQLEN": comp_eqlen, "R-MAYBE.compare": comp_maybe_compare}
+# --------------------------------------------------------------------------------------------
+# R-STICKYFAIL (C06, C15, C09): a failure flag that a per-axis helper OVERWRITES (`success = <this axis is compatible>`, not
+# `success = success && ...`) is only meaningful if every body that calls the helper repeatedly (a loop, or the lambda handed to
+# template_for) tests the flag itself - stops at, or skips after, the first failure. Otherwise a later compatible axis erases an
+# earlier failure and incompatible shapes are accepted. Both sibling bodies of one function (compile-time-length and run-time-length)
+# are instances, so the two container-kind branches are held to the same discipline. Name-free: the flag is any bool local initialised
+# `true` of the enclosing function, the helper any local lambda of it that assigns the flag from an expression not mentioning it.
+# --------------------------------------------------------------------------------------------
+def rule_stickyfail(rows, prop):
+    findings, samples, n = [], [], 0
+    fns = [r for r in rows if "fn" in r]
+    by_parent = {}
+    for r in fns:
+        if r.get("lambda"):
+            by_parent.setdefault((r["file"], r.get("parent_sig")), []).append(r)
+    for F in fns:
+        if F.get("lambda"):
+            continue
+        flags = [f["a"] for f in F["facts"] if f["k"] == "local" and f.get("c", "").replace("const ", "") == "bool" and f.get("b") == "true"]
+        if not flags:
+            continue
+        lambdas = by_parent.get((F["file"], F.get("sig")), [])
+        for flag in flags:
+            ref = "%" + flag
+            helpers = []
+            for L in lambdas:
+                if not L.get("lambda_var"):
+                    continue
+                for f in L["facts"]:
+                    if f["k"] == "assign" and f["a"] == ref and f.get("c") == "=" and ref not in re.findall(r"%\w+", f.get("b", "")) and f.get("b") not in ("false", "true"):
+                        helpers.append(L["lambda_var"]); break
+            for h in helpers:
+                href = "%" + h
+                for R in [F] + lambdas:
+                    if R.get("lambda_var") == h:
+                        continue
+                    # (a) loops of this body that call the helper: the loop body itself must read the flag
+                    for f in R["facts"]:
+                        if f["k"] != "loopbody" or href not in f.get("b", "").split(";"):
+                            continue
+                        n += 1
+                        if ref not in f.get("c", "").split(";"):
+                            row = dict(R); row["line"] = f.get("line", R.get("line"))
+                            findings.append(finding("R-STICKYFAIL", prop, row, "loop calls %s(...) without reading '%s'" % (h, flag),
+                                                    "the helper '%s' overwrites the failure flag '%s' on every call; this loop calls it for every axis and never reads the flag, so a later compatible axis erases an earlier failure" % (h, flag)))
+                        elif len(samples) < 3:
+                            samples.append("R-STICKYFAIL %s: loop at line %s calls %s and reads %s" % (relfile(R["file"]).split("/")[-1], f.get("line"), h, flag))
+                    # (b) a lambda (handed to a compile-time loop) that calls the helper outside any loop of its own: the lambda must test the flag
+                    if R.get("lambda") and any(f["k"] == "call" and f["a"] == href for f in R["facts"]) and not any(f["k"] == "loopbody" and href in f.get("b", "").split(";") for f in R["facts"]):
+                        n += 1
+                        tested = any(f["k"] in ("if", "cond") and ref in re.findall(r"%\w+", f.get("a", "")) for f in R["facts"])
+                        if not tested:
+                            findings.append(finding("R-STICKYFAIL", prop, R, "lambda calls %s(...) without a test of '%s'" % (h, flag),
+                                                    "the helper '%s' overwrites the failure flag '%s' on every call; this lambda is applied to every axis and never tests the flag" % (h, flag)))
+                        elif len(samples) < 3:
+                            samples.append("R-STICKYFAIL %s: lambda at line %s calls %s and tests %s" % (relfile(R["file"]).split("/")[-1], R.get("line"), h, flag))
+                # (c) the helper handed directly to a compile-time loop (template_for<N>(helper)): nothing between two calls can test the flag
+                for R in [F] + lambdas:
+                    for f in R["facts"]:
+                        if f["k"] == "call" and re.search(r"template_for<[^>]*>\(" + re.escape(href) + r"\)", f.get("b", "")):
+                            n += 1
+                            row = dict(R); row["line"] = f.get("line", R.get("line"))
+                            findings.append(finding("R-STICKYFAIL", prop, row, "%s handed directly to template_for" % h,
+                                                    "the helper '%s' overwrites the failure flag '%s' on every call and is applied to every axis with no test of the flag in between" % (h, flag)))
+    return findings, n, samples
+
+
+def comp_stickyfail(prop, tier, comp, work):
+    t0 = time.time()
+    tu, n = gen_umbrella(["nmtools/array/view", "nmtools/array/index"], work, "umb_vi.cpp")
+    rows, err, cmd = run_nmlint(tu, filters=["include/nmtools/array/view/", "include/nmtools/array/index/"])
+    out = dict(broken=[], units=n, functions=len(rows), cmd=cmd)
+    if err:
+        out["broken"].append(err); return out
+    f, inst, samples = rule_stickyfail(rows, prop)
+    out.update(findings=f, instances={"R-STICKYFAIL": inst}, evaluations=inst, distinct_nontrivial=inst - len(f), samples=samples, wall_s=round(time.time() - t0, 2))
+    return out
+
+
+RULES = {"R-FWD.array": comp_fwd_array, "R-FWD.functional": comp_fwd_functional, "R-UFUNC": comp_ufunc, "R-KSIB": comp_ksib, "R-SIMD": comp_simd, "R-CONSTBRANCH": comp_constbranch, "R-TRAITPROV": comp_traitprov, "R-MAYBE-DIV": comp_maybe_div, "R-OWN": comp_own, "R-EVAL": comp_eval, "R-EQSHAPE": comp_eqshape, "R-PAIR": comp_pair, "R-FOLD": comp_fold, "R-MEMCOPY": comp_memcopy, "R-AXISNORM": comp_axisnorm, "R-AXISNORM.simd": comp_axisnorm_simd, "R-UFWD.reduce": comp_ufwd_reduce, "R-PARAMUSE": comp_paramuse, "R-GETFN": comp_getfn, "R-MAYBE.broadcast": comp_maybe_bcast, "R-SIMDSIB": comp_simdsib, "R-EQLEN": comp_eqlen, "R-MAYBE.compare": comp_maybe_compare, "R-STICKYFAIL": comp_stickyfail}
